@@ -57,6 +57,10 @@ where
             T::from_buffer(buf)
         } else if let Entry::Occupied(mut entry) = self.queue.entry(id) {
             let queue = entry.get_mut();
+            if queue.fragments.len() != total as usize {
+                // announces another total than the pending frame with this id: not part of it
+                return None;
+            }
             if queue.add_fragment(seq, buf) {
                 let buf = queue.assemble();
                 // tracing::trace!("reassembled {} bytes", buf.len());
